@@ -58,3 +58,16 @@ func checkC05() *rtCheck {
 		MkCases: cases.Errors, Judge: oracle.C05, Floor: [2]int{300, 5000},
 	}
 }
+
+func checkC06() *rtCheck {
+	return &rtCheck{
+		Prop: "C06",
+		Rule: "specs from the security profile (Basic/APIKey/JWT/OAuth2 in 1-3 alternative requirements of 1-2 schemes at API/service/method level, NoSecurity, explicit and implicit credential mapping); per secured method EVERY accept/reject vector over its schemes (<=2^6) x 2 (all credentials supplied / one requirement's credentials only), reject flavours plain/service/declared, credentials from class alphabets; per unsecured method 3 calls. non-trivial = decided exchange with at least one callback or an unsecured call; distinct = (feature signature, method, vector, credential classes)",
+		Assume: []string{"callback order is not asserted; a callback for a later requirement after an earlier one succeeded is allowed",
+			"a credential already carrying the Bearer prefix may arrive with or without it",
+			"':' is not generated in basic-auth user names (RFC 7617)"},
+		Profiles: []string{"security"}, Specs: [2]int{24, 300}, PerMethod: [2]int{0, 0},
+		MkCases: cases.Security, Judge: oracle.C06, Floor: [2]int{150, 3000},
+		NonTrivial: func(ex *rt.Exchange) bool { return len(ex.Auth) > 0 || ex.Case.Class == "unsecured" },
+	}
+}
